@@ -250,7 +250,11 @@ class Ctx(object):
     def read(self, apath):
         if apath in self.env:
             return self.env[apath]
-        return get_at(self.root, apath)
+        try:
+            return get_at(self.root, apath)
+        except IndexError:
+            # a statement names an element the list does not have (any more)
+            raise Corner("list index outside the list")
 
     def decl(self, apath):
         return decl_at(self.prog, self.root, apath)
@@ -298,7 +302,8 @@ def etype(e, ctx):
         _, w, s = _leaf_tv(ctx, _el_path(e, ctx))
         return w, s, False
     if k == "idx":
-        return 32, False, False
+        # the index of an unrolled foreach is a bare integer like any other: 32 bits, signed
+        return 32, True, False
     if k == "en":
         return 32, True, False
     if k == "b":
